@@ -75,6 +75,10 @@ CLAIMED = {
    text="Decision tables decide the configuration path for every TOML document as far as the code distinguishes them: deserializeConfigInto over section ∈ {absent, table, other value} × Unmarshal outcome (absent ⇒ defaults untouched; non-table ⇒ error, never a panic; errors returned), Configure (error iff inner error), MaybeConfigure (no-op unless Configurable, configures the instance's own Configure() value under the lint's name); the three life-cycle tables (configuration before CheckApplies, error ⇒ Fatal with the error text and no lint call — also on the CRL/OCSP paths without a recovery net); no unchecked type assertion / panic in the configuration path; every Configure() returns its own receiver and every constructor is fresh (no leakage between runs or registries); Filter copies the configuration on every path; the example generator covers all three kinds. TOML validity of the example, go-toml's own behaviour and the effect of an option on a lint are not decided.",
    note=TRUST+"go-toml returns type errors rather than panicking (trusted); reflect-based resolution of higher-scoped configurations is not modelled.",
    technique="decision-table extraction over go/ssa; assertion/panic census in the configuration path; constructor freshness analysis", ref="§3 C11"),
+ "C15": dict(level="other",
+   text="Control-flow shape of cmd/zlint and formattedoutput decided from decision tables (logrus.Fatal*/os.Exit = process exit): doLint on read/decode/parse/JSON errors × four formats × PEM block types × output flags fails closed (Fatal, nothing written to stdout before) and otherwise parses the decoded bytes of the chosen format, lints with the registry it was handed (CRL iff PEM type X509 CRL), marshals that result's Results and prints it / its indentation / its summary; setLints on all 64 flag combinations and its error cases wires each flag to its own FilterOptions field, applies -config before filtering and returns the filtered (or global) registry; main hands setLints' registry to every doLint call and dies on its error; newRT counts one per result above the threshold into maps allocated per call. Process exit codes, table rendering and byte-level output are not decided.",
+   note=TRUST+"logrus.Fatal* terminate the process; pem/base64/json and the zcrypto parsers are oracles.",
+   technique="decision-table extraction over go/ssa with no-return modelling; def-use of flag variables", ref="§3 C15"),
 }
 
 NOT_YET = "check not built yet in this session (see DESIGN.md §3 for the planned static rule)"
